@@ -2,85 +2,252 @@
 from hypothesis import strategies as st
 from .. import build
 from ..core import Result, HarnessBug
-from ..vm import Prog, expect_ok
+from ..vm import Prog, expect_ok, lit_repr
 from . import seqs, maps
 
 ID = "C05"
 LEVEL = "exploration"
 BUDGET = {"quick": 1200, "thorough": 240000}
-RULE = ("case = 1-4 containers (Array, List, Table, Tree with Probe elements/keys/values - a type with constructor, "
-        "assignment, destructor and owned heap memory - and Array<Box> owning collector-managed Probes) driven by "
-        "interleaved op lists incl. copy, assign between containers of the same family (Array<->List, Table<->Tree), "
-        "clear, delete, sort, bulk growth/drain, with generated Probe hash functions forcing displacement and rehash; "
-        "after EVERY op the harness ledger is read: live tokens == sum of sequence lengths + 2 * sum of map lengths + "
+RULE = ("case = 1-5 containers (Array, List, Table, Tree with Probe elements/keys/values - a type with constructor, "
+        "assignment, destructor and owned heap memory - and Array / List / Table / Tree of Box owning collector-managed Probes) "
+        "driven by interleaved op lists incl. copy, assign between containers of the same family (Array<->List, Table<->Tree; a "
+        "map is often given a twin of the same types and the other or the same kind, so that both sides of a cross-assign "
+        "have a history), clear, delete, sort, bulk growth/drain, with generated Probe hash functions forcing displacement "
+        "and rehash. Containers start empty or are built by their constructor from initial elements / key-value pairs (maps: "
+        "also with repeated keys, whose earlier bindings must be finalised); map op lists get extra assign / copy / clear / "
+        "reserve ops; Array / List are also assigned / concatenated from views of another container (Slice, Filter - the "
+        "item-by-item branch of Array_Assign -, Map); a container may be copied and the COPY mutated and deleted (the "
+        "original must be unaffected - the existing copy op checks the other direction). Box containers: push, push_at, pop, "
+        "pop_at, concat from a Tuple, resize to fewer (and, List, to more: empty Boxes), set of a new / of a bound key "
+        "(Table: the old object is finalised; not generated for Tree, where set assigns onto the Box), rem, clear, bulk "
+        "growth, and forced collections (an object owned only through a contained Box must survive them). "
+        "After EVERY op the harness ledger is read: live tokens == sum of sequence lengths + 2 * sum of map lengths + "
         "boxed objects, no double finalise, no assign onto / compare of a finalised element, and 0 live at the end; "
         "contents are compared with the list/dict models as in C02-C04. non-trivial = the case contains an internal move "
         "with live tokens (Array capacity change, Table rehash/displacement, Tree removal of a two-child node, sort) AND a "
         "replace or remove. distinct = distinct case JSON.")
 ASSUMPTIONS = ["token ledger kept by the harness' Probe type (issued on construct / first assign into zeroed memory, retired in the destructor)",
-               "Box is never copied into a second owner; set() on Array<Box> (which overwrites the pointer) is not generated"]
+               "Box is never copied into a second owner; set() on Array<Box> / Tree<K,Box> of a bound key (which overwrites the pointer, the documented behaviour of assigning to a Box) is not generated",
+               "assign(list, filter) and concat(array, filter) are not generated (List_Assign / Array_Concat call len(source), a Filter has none: ClassError, C12's subject), assign from a Map view neither (a Map has no iter_type: the target is retyped to Ref, a documented conversion)"]
+
+M = maps.M
 
 
 def prepare(tier):
     return {"ex_vm": build.executor("asan", "ex_vm")}
 
 
+# ---- generators -------------------------------------------------------------------------
+
 @st.composite
 def box_ops(draw):
+    kind = draw(st.sampled_from(["BoxArray", "BoxArray", "BoxList", "BoxTable", "BoxTree"]))
     ops = []
-    for _ in range(draw(st.integers(1, 25))):
-        o = draw(st.sampled_from(["push", "push", "push", "pop", "pop_at", "clear", "pushn", "popn"]))
-        if o == "pop_at":
-            ops.append([o, draw(st.integers(0, 1000))])
-        elif o in ("pushn", "popn"):
-            ops.append([o, draw(st.sampled_from([3, 9, 30]))])
+    if kind in ("BoxArray", "BoxList"):
+        names = ["push", "push", "push", "pop", "pop_at", "clear", "pushn", "popn", "push_at", "resize_less", "concat", "collect"]
+        if kind == "BoxList":
+            names = names + ["resize_more", "resize_more"]
+        for _ in range(draw(st.integers(1, 25))):
+            o = draw(st.sampled_from(names))
+            if o in ("pop_at", "push_at", "resize_less"):
+                ops.append([o, draw(st.integers(0, 1000))])
+            elif o in ("pushn", "popn"):
+                ops.append([o, draw(st.sampled_from([3, 9, 30]))])
+            elif o in ("concat", "resize_more"):
+                ops.append([o, draw(st.integers(0, 5))])
+            else:
+                ops.append([o])
+    else:
+        # keys: a family that collides in Tables of 5, 11 and 23 slots, plus small ones
+        for _ in range(draw(st.integers(1, 25))):
+            o = draw(st.sampled_from(["set", "set", "set", "set", "rem", "rem", "clear", "bulk", "drain", "collect", "reserve"]))
+            if o in ("set", "rem"):
+                ops.append([o, draw(st.integers(0, 23))])
+            elif o in ("bulk", "drain"):
+                ops.append([o, draw(st.sampled_from([6, 12, 30]))])
+            elif o == "reserve":
+                ops.append([o, draw(st.integers(0, 40))])
+            else:
+                ops.append([o])
+    return {"kind": kind, "ops": ops}
+
+
+def box_key(i):
+    if i >= 100:
+        return "i:%d" % (1000 + 7 * (i - 100))          # bulk keys
+    return "i:%d" % ((i // 2 + 1) * 5 * 11 * 23 if i % 2 else i)
+
+
+@st.composite
+def view_op(draw, kind):
+    """assign / concat from a view of another container: [op, view, source kind, items, a, b]"""
+    o = draw(st.sampled_from(["assign_view", "concat_view", "concat_view"]))
+    # a Filter has no Len: Array_Assign then copies item by item (foreach + push), List_Concat iterates anyway, but
+    # List_Assign and Array_Concat call len(source) first and refuse it (ClassError: C12's subject)
+    if o == "assign_view":
+        views = ["slice", "slice"] + (["filter-all", "filter-all", "filter-none"] if kind == "Array" else [])
+    else:
+        views = ["slice", "map"] + (["filter-all", "filter-none"] if kind == "List" else [])
+    items = draw(st.lists(seqs.elem_values("Probe"), max_size=8))
+    return [o, draw(st.sampled_from(views)), draw(st.sampled_from(["Array", "List"])), items,
+            draw(st.integers(0, 1000)), draw(st.integers(0, 1000))]
+
+
+@st.composite
+def seq5(draw):
+    c = draw(seqs.seq_case(kinds=("Array", "List"), ets=("Probe",), max_ops=30))
+    c = {"kind": c["kind"], "et": c["et"], "ops": c["ops"]}
+    # views as sources
+    for _ in range(draw(st.integers(0, 2))):
+        at = draw(st.integers(0, len(c["ops"])))
+        c["ops"].insert(at, draw(view_op(c["kind"])))
+    # constructed with initial elements
+    if draw(st.integers(0, 2)) == 0:
+        c["init5"] = draw(st.lists(seqs.elem_values("Probe"), max_size=9))
+    return c
+
+
+def _retarget(ops, kind):
+    """op list of a twin map: the same universe indices, `reserve` only on a Table"""
+    out = []
+    for op in ops:
+        if op[0] == "reserve" and kind != "Table":
+            out.append(["clear"])
         else:
-            ops.append([o])
-    return {"kind": "BoxArray", "ops": ops}
+            out.append(op)
+    return out
+
+
+@st.composite
+def map5(draw):
+    """-> list of one or two map cases (the second is a twin of the same key / value types)"""
+    c = None
+    for _ in range(4):
+        c = draw(maps.map_case(draw(st.sampled_from(["Table", "Tree"]))))
+        # at least one of key / value must be the instrumented type (equal and different sizes: Probe/Probe, Int/Probe, Probe/Int)
+        if c["kt"] == "Probe" or c["vt"] == "Probe":
+            break
+        c = None
+    if c is None:
+        return []
+    c = dict(c)
+    nk = len(c["uni"])
+    vals = maps.values(c["vt"], c["uni"] if c["kt"] == c["vt"] else None)
+    # extra special ops: the shared generator issues them rarely
+    ops = list(c["ops"])
+    for _ in range(draw(st.integers(0, 3))):
+        o = draw(st.sampled_from(["assign", "assign", "copy", "clear", "reserve"]))
+        if o == "assign":
+            pairs = draw(st.lists(st.tuples(st.integers(0, nk - 1), vals), max_size=10, unique_by=lambda p: p[0]))
+            op = ["assign", draw(st.sampled_from(["Table", "Tree"])), [[i, v] for (i, v) in pairs]]
+        elif o == "reserve":
+            op = ["reserve", draw(st.integers(0, 60))] if c["kind"] == "Table" else ["clear"]
+        else:
+            op = [o]
+        ops.insert(draw(st.integers(0, len(ops))), op)
+    c["ops"] = ops[:80]
+    # constructed from initial pairs, keys may repeat (the later binding wins, the earlier one is finalised)
+    if draw(st.integers(0, 2)) == 0:
+        c["init5"] = [[i, v] for (i, v) in draw(st.lists(st.tuples(st.integers(0, nk - 1), vals), max_size=12))]
+    out = [c]
+    if draw(st.booleans()):
+        k2 = draw(st.sampled_from(["Table", "Tree"]))
+        sub = draw(st.lists(st.integers(0, max(0, len(ops) - 1)), max_size=30))
+        t = {"kind": k2, "kt": c["kt"], "vt": c["vt"], "uni": c["uni"], "pmode": c["pmode"],
+             "ops": _retarget([ops[i] for i in sub if i < len(ops)], k2), "twin": 1}
+        out.append(t)
+    return out
 
 
 @st.composite
 def strategy_(draw):
     n = draw(st.integers(1, 4))
     conts = []
+    twins = []
     for _ in range(n):
         fam = draw(st.sampled_from(["seq", "seq", "map", "map", "box"]))
         if fam == "seq":
-            conts.append(draw(seqs.seq_case(kinds=("Array", "List"), ets=("Probe",), max_ops=30)))
+            conts.append(draw(seq5()))
         elif fam == "map":
-            c = draw(maps.map_case(draw(st.sampled_from(["Table", "Tree"]))))
-            # at least one of key / value must be the instrumented type (equal and different sizes: Probe/Probe,
-            # Int/Probe, Probe/Int)
-            if c["kt"] != "Probe" and c["vt"] != "Probe":
-                c = None
-            conts.append(c)
+            ms = draw(map5())
+            if len(ms) == 2 and len(conts) <= 3:
+                twins.append((len(conts), len(conts) + 1))
+                conts.extend(ms)
+            elif ms:
+                conts.append(ms[0])
         else:
             conts.append(draw(box_ops()))
-    conts = [c for c in conts if c is not None]
+    conts = conts[:5]
+    twins = [(a, b) for (a, b) in twins if b < len(conts)]
     if not conts:
-        conts = [draw(seqs.seq_case(kinds=("Array", "List"), ets=("Probe",), max_ops=30))]
+        conts = [draw(seq5())]
     total = sum(len(c["ops"]) for c in conts)
     order = draw(st.lists(st.integers(0, len(conts) - 1), min_size=total, max_size=total))
+    # (step, a, b): a != b: assign a <- b; a == b: copy a, mutate and delete the copy
     cross = draw(st.lists(st.tuples(st.integers(0, max(0, total - 1)), st.integers(0, len(conts) - 1), st.integers(0, len(conts) - 1)), max_size=4))
-    return {"conts": conts, "order": order, "cross": [list(c) for c in cross], "pmode": draw(st.integers(0, 3))}
-
-
-@st.composite
-def probe_map_case(draw, kind):
-    uni = draw(maps.probe_universe(6, 16 if kind == "Table" else 30))
-    base = draw(maps.map_case(kind))
-    return base
+    cross = [list(c) for c in cross]
+    for (a, b) in twins:
+        for _ in range(draw(st.integers(1, 3))):
+            x, y = (a, b) if draw(st.booleans()) else (b, a)
+            cross.append([draw(st.integers(0, max(0, total - 1))), x, y])
+    return {"conts": conts, "order": order, "cross": cross, "pmode": draw(st.integers(0, 3))}
 
 
 def strategy(tier):
     return strategy_()
 
 
+# ---- runs -------------------------------------------------------------------------------
+
+class Seq5(seqs.SeqRun):
+    """SeqRun plus sources that are views of another container"""
+
+    def apply(self, op):
+        if op[0] not in ("assign_view", "concat_view"):
+            return seqs.SeqRun.apply(self, op)
+        P, m = self.P, self.model
+        o, view, sk, items, a, b = op
+        src, v = self.aux, self.aux + 4
+        n = len(items)
+        P.add(("new %%%d heap t:%s t:Probe %s" % (src, sk, " ".join(items))).rstrip())
+        if view == "slice":
+            lo, hi = sorted((a * (n + 1) // 1001, b * (n + 1) // 1001))
+            P.add("new %%%d heap t:Slice %%%d i:%d i:%d" % (v, src, lo, hi))
+            got = items[lo:hi]
+        elif view.startswith("filter"):
+            P.add("new %%%d heap t:Filter %%%d fn:%s" % (v, src, view[7:]))
+            got = list(items) if view == "filter-all" else []
+        else:
+            P.add("new %%%d heap t:Map %%%d fn:id" % (v, src))
+            got = list(items)
+        if o == "assign_view":
+            P.add("assign %s %%%d" % (self.c, v), lambda ob: None if ob.startswith("ok") else "assign failed: " + ob)
+            m[:] = got
+            self.flags["last_cap"] = None
+        else:
+            P.add("concat %s %%%d" % (self.c, v))
+            m.extend(got)
+        # deep: changing and deleting the source afterwards does not reach the target
+        if n:
+            P.add("set %%%d i:0 p:55" % src)
+        P.add("push %%%d p:56" % src)
+        P.add("del %%%d" % v)
+        P.add("del %%%d" % src)
+        self.events.add("%s-%s-of-%s" % (o.split("_")[0], view, sk))
+        self.check()
+
+
 class BoxRun:
+    """Array / List / Table / Tree of Box, each Box owning one collector-managed Probe (or nothing: List padding)"""
+
     def __init__(self, case, slot, prog):
         self.P = prog
+        self.kind = case["kind"]
         self.cur = slot
-        self.n = 0
+        self.seq = self.kind in ("BoxArray", "BoxList")
+        self.items = []           # sequences: True = Box holds an object, False = empty Box
+        self.keys = {}            # maps: bound key index -> True
+        self.serial = 0
         self.flags = {"moves": False, "removes": False}
         self.events = set()
 
@@ -89,49 +256,156 @@ class BoxRun:
         return "%%%d" % self.cur
 
     def start(self):
-        self.P.add("new %s heap t:Array t:Box" % self.c)
+        t = {"BoxArray": "t:Array t:Box", "BoxList": "t:List t:Box", "BoxTable": "t:Table t:Int t:Box", "BoxTree": "t:Tree t:Int t:Box"}[self.kind]
+        self.P.add("new %s heap %s" % (self.c, t))
+
+    def _obj(self, s):
+        self.P.add("new %%%d heap t:Probe i:%d" % (s, self.serial % 7))
+        self.serial += 1
 
     def _push(self):
         s = self.cur + 1
-        self.P.add("new %%%d heap t:Probe i:%d" % (s, self.n % 7))
+        self._obj(s)
         self.P.add("push %s %%%d" % (self.c, s))
         self.P.add("zero %%%d" % s)
-        self.n += 1
+        self.items.append(True)
+
+    def _pop(self):
+        self.P.add("pop %s" % self.c)
+        self.items.pop()
+
+    def _set(self, i):
+        s = self.cur + 1
+        self._obj(s)
+        self.P.add("set %s %s x:%%%d" % (self.c, box_key(i), s))
+        self.P.add("zero %%%d" % s)
+        self.keys[i] = True
 
     def apply(self, op):
         o = op[0]
-        if o == "push":
-            self._push()
-        elif o == "pushn":
-            for _ in range(op[1]):
+        P = self.P
+        n = len(self.items)
+        if o == "collect":
+            P.add("collect")
+            self.events.add("box-collect-%s" % self.kind)
+        elif self.seq:
+            if o == "push":
                 self._push()
-            self.flags["moves"] = True
-        elif o == "pop":
-            if self.n:
-                self.P.add("pop %s" % self.c)
-                self.n -= 1
+            elif o == "pushn":
+                for _ in range(op[1]):
+                    self._push()
+                self.flags["moves"] = True
+            elif o == "pop":
+                if n:
+                    self._pop()
+                    self.flags["removes"] = True
+            elif o == "popn":
+                for _ in range(min(op[1], n)):
+                    self._pop()
                 self.flags["removes"] = True
-        elif o == "popn":
-            for _ in range(min(op[1], self.n)):
-                self.P.add("pop %s" % self.c)
-                self.n -= 1
-            self.flags["removes"] = True
-        elif o == "pop_at":
-            if self.n:
-                self.P.add("pop_at %s i:%d" % (self.c, op[1] * self.n // 1001))
-                self.n -= 1
+            elif o == "pop_at":
+                if n:
+                    i = op[1] * n // 1001
+                    P.add("pop_at %s i:%d" % (self.c, i))
+                    self.items.pop(i)
+                    self.flags["removes"] = True
+            elif o == "push_at":
+                if n:
+                    i = op[1] * n // 1001
+                    s = self.cur + 1
+                    self._obj(s)
+                    P.add("push_at %s %%%d i:%d" % (self.c, s, i))
+                    P.add("zero %%%d" % s)
+                    self.items.insert(i, True)
+                    self.flags["moves"] = True
+                    self.events.add("box-push_at")
+            elif o == "resize_less":
+                if n >= 2:
+                    k = 1 + op[1] * (n - 1) // 1001
+                    P.add("resize %s %d" % (self.c, k))
+                    del self.items[k:]
+                    self.flags["removes"] = True
+                    self.events.add("box-resize-less")
+            elif o == "resize_more":
+                # List only: the new tail elements are empty Boxes (zeroed, nothing to finalise)
+                P.add("resize %s %d" % (self.c, n + 1 + op[1]))
+                self.items.extend([False] * (1 + op[1]))
+                self.events.add("box-list-padding")
+            elif o == "concat":
+                k = op[1]
+                base = self.cur + 2
+                for j in range(k):
+                    self._obj(base + j)
+                P.add(("stup %%%d %s" % (self.cur + 1, " ".join("%%%d" % (base + j) for j in range(k)))).rstrip())
+                P.add("concat %s %%%d" % (self.c, self.cur + 1))
+                for j in range(k):
+                    P.add("zero %%%d" % (base + j))
+                P.add("zero %%%d" % (self.cur + 1))
+                self.items.extend([True] * k)
+                self.events.add("box-concat")
+            elif o == "clear":
+                P.add("resize %s 0" % self.c)
+                self.items = []
+            else:
+                raise HarnessBug("box op " + o)
+            P.add("len %s" % self.c, expect_ok(str(len(self.items))))
+        else:
+            if o == "set":
+                i = op[1]
+                if i in self.keys:
+                    if self.kind == "BoxTree":
+                        return            # Tree_Set assigns onto the bound Box (pointer overwritten): not generated
+                    self.flags["removes"] = True
+                    self.events.add("box-table-replace")
+                self._set(i)
+            elif o == "rem":
+                i = op[1]
+                if i not in self.keys and self.keys:
+                    i = sorted(self.keys)[i % len(self.keys)]
+                if i in self.keys:
+                    P.add("rem %s %s" % (self.c, box_key(i)))
+                    del self.keys[i]
+                    self.flags["removes"] = True
+            elif o == "bulk":
+                for j in range(op[1]):
+                    if 100 + j not in self.keys:
+                        s = self.cur + 1
+                        self._obj(s)
+                        P.add("set %s %s x:%%%d" % (self.c, box_key(100 + j), s))
+                        P.add("zero %%%d" % s)
+                        self.keys[100 + j] = True
+                self.flags["moves"] = True
+            elif o == "drain":
+                for j in range(op[1]):
+                    if 100 + j in self.keys:
+                        P.add("rem %s %s" % (self.c, box_key(100 + j)))
+                        del self.keys[100 + j]
                 self.flags["removes"] = True
-        elif o == "clear":
-            self.P.add("resize %s 0" % self.c)
-            self.n = 0
-        self.P.add("len %s" % self.c, expect_ok(str(self.n)))
+                self.flags["moves"] = True
+            elif o == "reserve":
+                if self.kind == "BoxTable" and (op[1] == 0 or op[1] >= len(self.keys)):
+                    P.add("resize %s %d" % (self.c, op[1]))
+                    if op[1] == 0:
+                        self.keys = {}
+                    self.flags["moves"] = True
+            elif o == "clear":
+                P.add("resize %s 0" % self.c)
+                self.keys = {}
+            else:
+                raise HarnessBug("box op " + o)
+            P.add("len %s" % self.c, expect_ok(str(len(self.keys))))
+            if self.kind == "BoxTable":
+                P.add("tchk %s" % self.c, lambda ob: None if ob.startswith("ok ") and ob.endswith("bad=-") else "Table invariant: " + ob)
+            else:
+                P.add("rbchk %s" % self.c, lambda ob: None if ob.startswith("ok ") and ob.endswith("bad=-") else "Tree invariant: " + ob)
 
     def live(self):
-        return self.n
+        return sum(1 for x in self.items if x) + len(self.keys)
 
     def finish(self):
         self.P.add("del %s" % self.c)
-        self.n = 0
+        self.items = []
+        self.keys = {}
 
 
 def run_case(ctx, case):
@@ -141,7 +415,7 @@ def run_case(ctx, case):
     for i, c in enumerate(case["conts"]):
         base = i * 12
         if c["kind"] in ("Array", "List"):
-            r = seqs.SeqRun(c, slot=base, prog=P)
+            r = Seq5(c, slot=base, prog=P)
             r.fam = "seq"
         elif c["kind"] in ("Table", "Tree"):
             c = dict(c)
@@ -151,6 +425,7 @@ def run_case(ctx, case):
             r = BoxRun(c, base, P)
             r.fam = "box"
         r.todo = list(c["ops"])
+        r.base = base
         runs.append(r)
 
     def live():
@@ -167,17 +442,32 @@ def run_case(ctx, case):
     def chk_live():
         P.add("live", expect_ok("live=%d ledger=-" % live()))
 
-    for r in runs:
+    events = set()
+    for r, c in zip(runs, case["conts"]):
+        init = c.get("init5")
         if r.fam == "map":
-            P.add("new %s heap t:%s t:%s t:%s" % (r.c, r.kind, r.kt, r.vt))
+            words = []
+            if init:
+                for (i, v) in init:
+                    k = r.uni[i]
+                    words += [k, v]
+                    r.model[k] = v
+                events.add("ctor-pairs-%s%s" % (r.kind, "-repeated-key" if len(r.model) < len(init) else ""))
+            P.add(("new %s heap t:%s t:%s t:%s %s" % (r.c, r.kind, r.kt, r.vt, " ".join(words))).rstrip())
             r.check()
+        elif r.fam == "seq" and init:
+            P.add("new %s heap t:%s t:Probe %s" % (r.c, r.kind, " ".join(init)))
+            r.model[:] = list(init)
+            r.check()
+            events.add("ctor-elements-" + r.kind)
         else:
             r.start()
+        if "twin" in c:
+            events.add("twin-maps")
     chk_live()
     cross = {}
     for (at, a, b) in case["cross"]:
         cross.setdefault(at, []).append((a, b))
-    events = set()
     for step, ci in enumerate(case["order"]):
         for (a, b) in cross.get(step, []):
             ra, rb = runs[a], runs[b]
@@ -197,6 +487,28 @@ def run_case(ctx, case):
                 ra.check()
                 rb.check()
                 chk_live()
+            elif a == b and ra.fam in ("seq", "map"):
+                # the other direction of "deep": the COPY is mutated and deleted, the original must not notice
+                t = "%%%d" % (ra.base + 10)
+                P.add("copy %s %s" % (t, ra.c), lambda ob: None if ob.startswith("ok") else "copy failed: " + ob)
+                n0 = len(ra.model)
+                if ra.fam == "seq":
+                    if n0:
+                        P.add("set %s i:%d p:55" % (t, step % n0))
+                        P.add("pop_at %s i:%d" % (t, (step // 3) % n0))
+                    P.add("push %s p:56" % t)
+                    P.add("live", expect_ok("live=%d ledger=-" % (live() + n0 + (0 if n0 else 1))))
+                else:
+                    if n0:
+                        k0 = sorted(ra.model)[step % n0]
+                        P.add("rem %s %s" % (t, k0))
+                    P.add("set %s %s %s" % (t, maps.filler_key(ra.kt, 9997), maps.filler_val(ra.vt, 3)))
+                    per = (ra.kt == "Probe") + (ra.vt == "Probe")
+                    P.add("live", expect_ok("live=%d ledger=-" % (live() + per * (n0 + (0 if n0 else 1)))))
+                P.add("del %s" % t)
+                ra.check()
+                chk_live()
+                events.add("copy-dropped-%s" % ra.kind)
         r = runs[ci]
         if r.todo:
             r.apply(r.todo.pop(0))
@@ -214,7 +526,7 @@ def run_case(ctx, case):
     removes = False
     for r in runs:
         events |= r.events
-        events.add("cont=" + r.kind if hasattr(r, "kind") else "cont=BoxArray")
+        events.add("cont=" + r.kind)
         if r.fam == "seq":
             moves |= (r.flags["grow"] + r.flags["shrink"] > 0) or "sort" in r.events
             removes |= any(e.startswith("rem-first") for e in r.events) or any(o[0] in ("pop", "pop_at", "popn", "set", "resize") for o in r.case["ops"])
